@@ -358,9 +358,13 @@ func main() {
 					case len(bs) <= 1:
 						scs = append(scs, scenario(c, ev.Pick(r, 2, 3)))
 					case !to && !slice:
-						scs = append(scs, scenario(c, ev.Pick(r, 1, 3)))
+						sc := scenario(c, ev.Pick(r, 1, 3))
+						sc.RaceBound = -2 // the delay-bounded twin of this configuration runs in the race build
+						scs = append(scs, sc)
 					case r.Thorough():
-						scs = append(scs, scenario(c, 1))
+						sc := scenario(c, 1)
+						sc.RaceBound = -2
+						scs = append(scs, sc)
 					}
 				}
 			}
